@@ -170,6 +170,10 @@ class Gen:
             if u == "negb":
                 return {"un": "neg", "a": self.operand("B", depth), "t": "I"}
             return {"un": u, "a": self.operand("I", depth), "t": "I"}
+        if fam == "ite" and r.random() < 0.2:
+            # the method forms: cond.if_else(a, b) on a boolean, and on a raw 0/1 integer
+            return {"call": "if_else_method", "args": [self.operand("B", depth), self.operand("I", depth),
+                                                       self.int_or_const(depth)], "raw": r.random() < 0.3, "t": "I"}
         if fam == "ite":
             if r.random() < 0.15:
                 tv, fv = self.operand("B", depth), self.operand("B", depth)
@@ -223,6 +227,13 @@ class Gen:
             return {"op": op, "a": self.operand("B", depth), "b": self.operand("B", depth), "t": "B"}
         if fam == "check":
             c = r.choice(["check_zero", "check_nonzero", "check_positive"])
+            u = r.random()
+            if u < 0.1:
+                return {"call": "bool_pow", "args": [self.operand("B", depth)], "pw": r.randrange(0, 4), "t": "B"}
+            if u < 0.25 and self.fxp:
+                return {"call": c, "args": [self.operand("F", depth)], "t": "B"}
+            if u < 0.35 and c != "check_nonzero":
+                return {"call": c, "args": [self.operand("B", depth)], "t": "B"}
             return {"call": c, "args": [self.operand("I", depth)], "t": "B"}
         if fam == "tobool":
             return {"call": "tobool", "args": [self.operand("I", depth)], "t": "B"}
@@ -243,6 +254,8 @@ class Gen:
                                             self.operand("F", depth)], "t": "F"}
         if u < 0.32:
             return {"op": "**", "a": self.operand("F", depth), "b": const(r.randrange(0, 3)), "t": "F"}
+        if u < 0.36:
+            return {"op": r.choice(["<<", ">>"]), "a": self.operand("F", depth), "b": const(r.randrange(0, 3)), "t": "F"}
         op = r.choice(["+", "-", "*", "+", "-", "*", "/", "//", "%"])
         a = self.operand("F", depth)
         k = r.random()
@@ -517,6 +530,13 @@ class CodeGen:
         if c == "rawcond":
             # a raw 0/1 secret integer carrying a boolean's value
             return "(%s + 0)" % self.ex(e["args"][0])
+        if c == "if_else_method":
+            a = [self.ex(x) for x in e["args"]]
+            if e.get("raw"):
+                return "(%s + 0).if_else(%s, %s)" % tuple(a)
+            return "(%s.if_else(%s, %s) + 0)" % tuple(a)
+        if c == "bool_pow":
+            return "(%s ** %d)" % (self.ex(e["args"][0]), e["pw"])
         if c == "from_bits_raw":
             return "(LinComb.from_bits([%s]) + __zero__)" % ", ".join(self.ex(x) for x in e["args"])
         if c == "bits_roundtrip":
